@@ -131,3 +131,191 @@ Proof.
   split; [vm_compute; reflexivity|]. split; [vm_compute; reflexivity|].
   cbn [skipn map fst]. repeat (constructor; [|repeat (constructor; try lia)]). constructor.
 Qed.
+
+(* ---------------- the loop of getValuesAtPoints: start index handed from point to point ---------------- *)
+
+(* x lies as far after the target as r lies before it *)
+Definition tie (t : Z) (r x : row) : Prop := dist t x = dist t r /\ fst r < fst x.
+
+(* the rows scanned so far end with the best row, or with the best row followed by a tie *)
+Definition scan_state (t : Z) (pre : list row) (best : row) : Prop :=
+  (exists p0, pre = p0 ++ [best]) \/ (exists p0 e, pre = p0 ++ [best; e] /\ tie t best e).
+
+Lemma sorted_app_lt (a b : list row) :
+  StronglySorted Z.lt (map fst (a ++ b)) -> forall x y, In x a -> In y b -> fst x < fst y.
+Proof.
+  induction a as [|h a IH]; intros Hs x y Hx Hy; [destruct Hx|].
+  cbn [app map] in Hs. apply StronglySorted_inv in Hs. destruct Hs as [Hs Hall].
+  destruct Hx as [<-|Hx]; [|exact (IH Hs x y Hx Hy)].
+  rewrite Forall_forall in Hall. apply Hall. apply in_map. apply in_or_app. right. exact Hy.
+Qed.
+
+(* where the scan stops: the rows before the returned index are not later than the returned row, and the
+   rows from the returned index on contain the returned row or a row tied with it *)
+Ltac pred_lia :=
+  match goal with
+  | H : _ = ?i |- context [Init.Nat.pred ?i] =>
+      rewrite <- H; rewrite ?Nat.add_succ_r, ?Nat.add_0_r; cbn [Init.Nat.pred]; reflexivity
+  end.
+
+Lemma vat_fuzzy_index t : forall l pre best i r j,
+  StronglySorted Z.lt (map fst (pre ++ l)) -> length pre = i -> scan_state t pre best ->
+  vat_fuzzy t best l i = (r, j) ->
+  exists pre' l', pre ++ l = pre' ++ l' /\ length pre' = j /\
+    (forall x, In x pre' -> fst x <= fst r) /\
+    exists x, In x l' /\ (x = r \/ tie t r x).
+Proof.
+  induction l as [|r0 l IH]; intros pre best i r j Hs Hlen Hst H.
+  - cbn [vat_fuzzy] in H. injection H as <- <-. rewrite app_nil_r in *.
+    destruct Hst as [(p0 & ->)|(p0 & e & -> & Ht)].
+    + exists p0, [best]. rewrite app_length in Hlen. cbn [length] in Hlen.
+      split; [reflexivity|]. split; [pred_lia|]. split.
+      * intros x Hx. pose proof (sorted_app_lt _ _ Hs x best Hx (or_introl eq_refl)). lia.
+      * exists best. split; [left; reflexivity|left; reflexivity].
+    + exists (p0 ++ [best]), [e]. rewrite app_length in Hlen. cbn [length] in Hlen.
+      split; [rewrite <- app_assoc; reflexivity|]. split; [rewrite app_length; cbn [length]; pred_lia|]. split.
+      * intros x Hx. apply in_app_or in Hx. destruct Hx as [Hx|[<-|[]]]; [|lia].
+        pose proof (sorted_app_lt _ _ Hs x best Hx (or_introl eq_refl)). lia.
+      * exists e. split; [left; reflexivity|right; exact Ht].
+  - cbn [vat_fuzzy] in H.
+    assert (Hpre : forall x, In x pre -> fst x < fst r0)
+      by (intros x Hx; apply (sorted_app_lt _ _ Hs x r0 Hx); left; reflexivity).
+    assert (Hs' : StronglySorted Z.lt (map fst ((pre ++ [r0]) ++ l)))
+      by (rewrite <- app_assoc; exact Hs).
+    assert (Hlen' : length (pre ++ [r0]) = S i)
+      by (rewrite app_length, Hlen; cbn [length]; apply Nat.add_1_r).
+    destruct (Z.abs (fst r0 - t) <? Z.abs (fst best - t)) eqn:E1.
+    + destruct (Z.abs (fst r0 - t) =? 0) eqn:E0.
+      * injection H as <- <-. exists pre, (r0 :: l).
+        split; [reflexivity|]. split; [exact Hlen|]. split.
+        -- intros x Hx. specialize (Hpre x Hx). lia.
+        -- exists r0. split; [left; reflexivity|left; reflexivity].
+      * assert (Hst' : scan_state t (pre ++ [r0]) r0) by (left; exists pre; reflexivity).
+        destruct (IH _ _ _ _ _ Hs' Hlen' Hst' H) as (pre' & l' & Heq & Hrest).
+        exists pre', l'. split; [rewrite <- Heq, <- app_assoc; reflexivity|exact Hrest].
+    + destruct (Z.abs (fst best - t) <? Z.abs (fst r0 - t)) eqn:E2.
+      * injection H as <- <-.
+        destruct Hst as [(p0 & ->)|(p0 & e & -> & Ht)].
+        -- exists p0, (best :: r0 :: l). rewrite app_length in Hlen. cbn [length] in Hlen.
+           split; [rewrite <- app_assoc; reflexivity|]. split; [pred_lia|]. split.
+           ++ intros x Hx.
+              assert (Hs0 : StronglySorted Z.lt (map fst (p0 ++ ([best] ++ r0 :: l))))
+                by (rewrite app_assoc; exact Hs).
+              pose proof (sorted_app_lt _ _ Hs0 x best Hx (or_introl eq_refl)). lia.
+           ++ exists best. split; [left; reflexivity|left; reflexivity].
+        -- exists (p0 ++ [best]), (e :: r0 :: l). rewrite app_length in Hlen. cbn [length] in Hlen.
+           split; [rewrite <- !app_assoc; reflexivity|]. split; [rewrite app_length; cbn [length]; pred_lia|]. split.
+           ++ intros x Hx. apply in_app_or in Hx. destruct Hx as [Hx|[<-|[]]]; [|lia].
+              assert (Hs0 : StronglySorted Z.lt (map fst (p0 ++ ([best; e] ++ r0 :: l))))
+                by (rewrite app_assoc; exact Hs).
+              pose proof (sorted_app_lt _ _ Hs0 x best Hx (or_introl eq_refl)). lia.
+           ++ exists e. split; [left; reflexivity|right; exact Ht].
+      * (* equal distance *)
+        destruct Hst as [(p0 & ->)|(p0 & e & -> & Ht)].
+        -- assert (Hst' : scan_state t ((p0 ++ [best]) ++ [r0]) best).
+           { right. exists p0, r0. split; [rewrite <- app_assoc; reflexivity|].
+             assert (fst best < fst r0) by (apply Hpre; apply in_or_app; right; left; reflexivity).
+             unfold tie, dist. split; lia. }
+           destruct (IH _ _ _ _ _ Hs' Hlen' Hst' H) as (pre' & l' & Heq & Hrest).
+           exists pre', l'. split; [rewrite <- Heq, <- !app_assoc; reflexivity|exact Hrest].
+        -- exfalso.
+           assert (fst e < fst r0) by (apply Hpre; apply in_or_app; right; right; left; reflexivity).
+           unfold tie, dist in Ht. lia.
+Qed.
+
+(* dropping the first s rows loses nothing for target t *)
+Definition prefix_ok (t : Z) (data : list row) (s : nat) : Prop :=
+  forall r', In r' (firstn s data) -> exists x, In x (skipn s data) /\ dist t x <= dist t r'.
+
+(* nearest over the whole series *)
+Definition gnearest (t : Z) (data : list row) (r : row) : Prop :=
+  In r data /\ forall r', In r' data -> dist t r <= dist t r'.
+
+Lemma split_at_length {A} (pre' l' : list A) :
+  firstn (length pre') (pre' ++ l') = pre' /\ skipn (length pre') (pre' ++ l') = l'.
+Proof.
+  split.
+  - rewrite firstn_app, Nat.sub_diag, firstn_all. cbn [firstn]. apply app_nil_r.
+  - rewrite skipn_app, Nat.sub_diag, skipn_all. reflexivity.
+Qed.
+
+Lemma value_at_fuzzy_step t data s r j :
+  StronglySorted Z.lt (map fst data) -> prefix_ok t data s ->
+  value_at_fuzzy t data s = Ok (r, j) ->
+  gnearest t data r /\ forall t2, t <= t2 -> prefix_ok t2 data j.
+Proof.
+  intros Hs Hp H.
+  assert (Hsk : StronglySorted Z.lt (map fst (skipn s data))).
+  { rewrite <- (firstn_skipn s data) in Hs. rewrite map_app in Hs.
+    clear - Hs. induction (map fst (firstn s data)) as [|a l IH]; [exact Hs|].
+    apply IH. cbn [app] in Hs. apply StronglySorted_inv in Hs. tauto. }
+  destruct (value_at_fuzzy_nearest _ _ _ _ _ Hsk H) as [Hin Hmin].
+  assert (Hg : gnearest t data r).
+  { split.
+    - rewrite <- (firstn_skipn s data). apply in_or_app. right. exact Hin.
+    - intros r' Hr'. rewrite <- (firstn_skipn s data) in Hr'. apply in_app_or in Hr'.
+      destruct Hr' as [Hr'|Hr']; [|apply Hmin; exact Hr'].
+      destruct (Hp _ Hr') as (x & Hx & Hle). destruct (Hmin _ Hx) as [Hle' _]. lia. }
+  split; [exact Hg|].
+  intros t2 Ht2.
+  unfold value_at_fuzzy, row in *. destruct (skipn s data) as [|r0 l] eqn:E; [discriminate H|].
+  pose proof (vat_fuzzy_first t r0 l s) as Hf. unfold row in Hf. rewrite Hf in H. clear Hf.
+  assert (H' : vat_fuzzy t r0 l (S s) = (r, j)) by congruence. clear H.
+  assert (Hdata : data = (firstn s data ++ [r0]) ++ l)
+    by (rewrite <- app_assoc; cbn [app]; rewrite <- E; symmetry; apply firstn_skipn).
+  assert (Hlt : (s < length data)%nat).
+  { destruct (Nat.lt_ge_cases s (length data)) as [Hl|Hl]; [exact Hl|].
+    rewrite (skipn_all2 _ Hl) in E. discriminate E. }
+  assert (Hlen : length (firstn s data ++ [r0]) = S s)
+    by (rewrite app_length, firstn_length_le by lia; cbn [length]; lia).
+  assert (Hs2 : StronglySorted Z.lt (map fst ((firstn s data ++ [r0]) ++ l)))
+    by (rewrite <- Hdata; exact Hs).
+  assert (Hst : scan_state t (firstn s data ++ [r0]) r0) by (left; eexists; reflexivity).
+  destruct (vat_fuzzy_index t l _ r0 (S s) r j Hs2 Hlen Hst H') as (pre' & l' & Heq & Hj & Hbefore & x & Hx & Hxr).
+  unfold row in *. rewrite <- Hdata in Heq. subst j.
+  destruct (split_at_length pre' l') as [Hfi Hsk'].
+  intros r' Hr'. rewrite Heq in Hr' |- *.
+  assert (Hr'' : In r' pre') by (rewrite <- Hfi; exact Hr'). clear Hr'. rename Hr'' into Hr'.
+  exists x. split; [rewrite <- Hsk' in Hx; exact Hx|].
+  specialize (Hbefore _ Hr').
+  destruct Hg as [_ Hg]. assert (Hr'd : In r' data) by (rewrite Heq; apply in_or_app; left; exact Hr').
+  specialize (Hg _ Hr'd). unfold dist in *.
+  destruct Hxr as [->|[Hd Hl]]; [lia|]. unfold dist in Hd. lia.
+Qed.
+
+(* getValuesAtPoints(fuzzyMatching=True) on a time-sorted series and time-ordered points (possibly repeated):
+   one row per point, each a row of the series, and no row of the WHOLE series is nearer to its point --
+   handing the stop index of one search to the next as its start index loses nothing *)
+Theorem gvap_fuzzy_nearest data : forall pts s rows,
+  StronglySorted Z.lt (map fst data) -> StronglySorted Z.le pts ->
+  (forall t, In t pts -> prefix_ok t data s) ->
+  gvap_fuzzy pts data s = Ok rows ->
+  Forall2 (fun t r => gnearest t data r) pts rows.
+Proof.
+  induction pts as [|t pts IH]; intros s rows Hs Hpts Hp H.
+  - cbn [gvap_fuzzy] in H. injection H as <-. constructor.
+  - cbn [gvap_fuzzy] in H. unfold bind in H.
+    destruct (value_at_fuzzy t data s) as [[r j]|e] eqn:E; [|discriminate H].
+    cbn [fst snd] in H.
+    destruct (gvap_fuzzy pts data j) as [rest|e] eqn:E2; [|discriminate H].
+    injection H as <-.
+    destruct (value_at_fuzzy_step _ _ _ _ _ Hs (Hp t (or_introl eq_refl)) E) as [Hg Hnext].
+    apply StronglySorted_inv in Hpts. destruct Hpts as [Hpts Hall].
+    constructor; [exact Hg|].
+    apply (IH j rest Hs Hpts); [|exact E2].
+    intros t2 Ht2. apply Hnext. rewrite Forall_forall in Hall. apply Hall. exact Ht2.
+Qed.
+
+Corollary gvap_fuzzy_nearest_from_start data pts rows :
+  StronglySorted Z.lt (map fst data) -> StronglySorted Z.le pts ->
+  gvap_fuzzy pts data 0 = Ok rows ->
+  Forall2 (fun t r => gnearest t data r) pts rows.
+Proof.
+  intros Hs Hpts H. apply (gvap_fuzzy_nearest data pts 0%nat rows Hs Hpts); [|exact H].
+  intros t _ r' Hr'. cbn [firstn] in Hr'. destruct Hr'.
+Qed.
+
+Example gvap_fuzzy_somewhere :
+  gvap_fuzzy [7; 7; 8; 30] [(0, 10); (4, 11); (10, 12); (20, 13)] 0
+  = Ok [(4, 11); (10, 12); (10, 12); (20, 13)].
+Proof. vm_compute. reflexivity. Qed.
